@@ -16,9 +16,9 @@ import (
 
 func init() {
 	register(&Rule{
-		ID: "C09",
+		ID:      "C09",
 		Explain: "Decides C09 as a closed set of proof obligations: starting from every memberlist delegate method serf registers (and the goroutines that consume the data those hand over by channel), it computes the set of module functions reachable on the call graph and enumerates in them every construct that can panic on some input — slice/string/array indexing and slicing, explicit panics, unchecked type assertions, integer division by a non-constant, writes through a possibly-nil map, dereferences of pointers taken out of decoded containers, and make() with a non-constant length. Each obligation must be discharged by one of a fixed list of sound idioms the repository actually uses (dominating length/nil guards on the same access path, range induction variables, comma-ok, LastIndex/!=-1 guards, modulus by the same length, enum who-may-write arguments, caller-established preconditions, ...). Anything no rule decides fails the check. Resource exhaustion, deadlock and panics inside dependencies are not covered; go-msgpack's Decode recovering its own panics is part of the trusted base (re-checked in the thorough tier).",
-		Run: runC09,
+		Run:     runC09,
 		Mutants: []Mutant{
 			{Name: "notifymsg-no-empty-check", File: "serf/delegate.go", Func: "func (d *delegate) NotifyMsg(", Old: "\tif len(buf) == 0 {\n\t\treturn\n\t}\n", New: "", Expect: "P1"},
 			{Name: "merge-no-empty-check", File: "serf/delegate.go", Func: "func (d *delegate) MergeRemoteState(", Old: "\tif len(buf) == 0 {\n\t\td.serf.logger.Printf(\"[ERR] serf: Remote state is zero bytes\")\n\t\treturn\n\t}\n", New: "", Expect: "P1"},
